@@ -139,6 +139,11 @@ def _nf_expr(idx, f):
     from ..core.inline import expand_helpers
     g = copy.copy(f)
     node = expand_helpers(idx, f.module, copy.deepcopy(f.node), depth=2, only=lambda c: getattr(c, "module", None) is f.module and c.name.startswith("_"))
+    # `for child in (nodes[i, LEFT], nodes[i, RIGHT]): ...` is the body once per child
+    from ..core.inline import normalise_statements as _norm
+    keep = {n.func.attr for n in ast.walk(node) if isinstance(n, ast.Call) and isinstance(n.func, ast.Attribute)}
+    if any(isinstance(n, ast.For) and isinstance(n.iter, (ast.Tuple, ast.List)) for n in ast.walk(node)):
+        node.body = _norm(idx, f.module, node.body, depth=0, keep=tuple(keep))
     ast.fix_missing_locations(node)
     g.node = deref_access_temps(node)
     return g
@@ -346,19 +351,49 @@ def _r_traverse(idx, rep):
                     resname = n.id
     pushes = _stack_pushes(loop, stackname)
     rep.check(len(pushes) >= 1, rule, fk + "|push-exists", f.where, "no push of child nodes found in the traversal loop")
+    # Two disciplines keep the same invariant.  TEST AT POP (the pinned code): everything is pushed, a popped node is examined only if its box overlaps the query.
+    # TEST AT PUSH: only nodes whose box overlaps the query ever enter the stack — the root under `overlap(aabbs[root], query)`, each child under
+    # `overlap(aabbs[child], query)` — and a popped leaf is reported as it is.  Which one is used is read off the way the root enters the stack.
+    seed_pushes = []
+    for top in f.node.body:
+        if top is loop:
+            break
+        for st_ in ast.walk(top):
+            if isinstance(st_, ast.Expr) and isinstance(st_.value, ast.Call) and call_name(st_.value) in (stackname + ".append", stackname + ".extend"):
+                seed_pushes.append(st_)
+    push_time = False
+    if seed_pushes:
+        st_ = seed_pushes[0]
+        arg_ = st_.value.args[0] if st_.value.args else None
+        vals_ = [u(e_) for e_ in arg_.elts] if isinstance(arg_, (ast.List, ast.Tuple)) else [u(arg_)]
+        atoms_ = [(t_, pol_) for t_, pol_ in _guard_chain(pm if False else parent_map(f.node), st_, f.node)]
+        ov_ = [c_ for t_, pol_ in atoms_ if pol_ for c_ in conjuncts(t_) if isinstance(c_, ast.Call) and (call_name(c_) or "").split(".")[-1] == "aabb_overlap"]
+        push_time = bool(ov_)
+        if push_time:
+            good_ = len(seed_pushes) == 1 and vals_ == [p_root] and len(ov_) == 1 and sorted(u(a_) for a_ in ov_[0].args) == sorted(["%s[%s]" % (p_aabbs, p_root), p_test])
+            others_ = [c_ for t_, pol_ in atoms_ for c_ in (conjuncts(t_) if pol_ else [t_]) if c_ is not ov_[0] and not _is_sentinel_test(c_, C, [p_root])]
+            sent_bad_ = [c_ for t_, pol_ in atoms_ for c_ in (conjuncts(t_) if pol_ else [t_]) if _is_sentinel_test(c_, C, [p_root]) and _sentinel_polarity(c_, C) == pol_]
+            rep.check(good_ and not others_ and not sent_bad_, rule, fk + "|seed", "%s:%d" % (f.module.relpath, st_.lineno),
+                      "with the overlap test made when a node is PUSHED, the root must enter the stack exactly under `aabb_overlap(%s[%s], %s)` (and its existence): found `%s` under %s"
+                      % (p_aabbs, p_root, p_test, u(st_)[:50], [u(t_)[:60] for t_, _ in atoms_]), "root pushed iff it exists and overlaps")
 
-    def overlap_ok(args):
-        want_node = "%s[%s]" % (p_aabbs, nodevar)
+    def overlap_ok(args, box=None):
+        want_node = box or "%s[%s]" % (p_aabbs, nodevar)
         a = [aliases.get(x, x) for x in args]
         return sorted(a) == sorted([want_node, p_test])
 
-    def check_guards(st, what, need_leaf):
+    def check_guards(st, what, need_leaf, box=None, need_overlap=True, extra_sentinels=()):
         chain = _guard_chain(pm, st, loop)
         seen_overlap = False
         seen_type = False
         okay = True
         for test, pol in chain:
             for cj in (conjuncts(test) if pol else [test]):
+                if extra_sentinels and _is_sentinel_test(cj, C, list(extra_sentinels)):
+                    if _sentinel_polarity(cj, C) == pol:
+                        rep.bad(rule, fk + "|%s guard %s" % (what, u(cj)), "%s:%d" % (f.module.relpath, st.lineno), "%s happens only for the INDEX_NONE sentinel" % what)
+                        okay = False
+                    continue
                 if _is_sentinel_test(cj, C, [nodevar]):
                     if _sentinel_polarity(cj, C) == pol:
                         rep.bad(rule, fk + "|%s guard %s" % (what, u(cj)), "%s:%d" % (f.module.relpath, st.lineno),
@@ -367,7 +402,7 @@ def _r_traverse(idx, rep):
                     continue
                 kind = _classify_test(cj, C, p_nodes, nodevar, aliases)
                 if kind[0] == "overlap":
-                    if not pol or not overlap_ok(kind[1]):
+                    if not pol or not overlap_ok(kind[1], box):
                         rep.bad(rule, fk + "|%s guard %s" % (what, u(cj)), "%s:%d" % (f.module.relpath, st.lineno),
                                 "%s is guarded by the overlap test with wrong polarity or wrong boxes (%s)" % (what, kind[1]))
                         okay = False
@@ -390,12 +425,13 @@ def _r_traverse(idx, rep):
                     rep.bad(rule, fk + "|%s extra-filter %s" % (what, u(cj)), "%s:%d" % (f.module.relpath, st.lineno),
                             "%s is additionally filtered by `%s` (only the box overlap test and the node type may decide)" % (what, u(cj)))
                     okay = False
-        if not seen_overlap:
+        if need_overlap and not seen_overlap:
             rep.bad(rule, fk + "|%s no-overlap-guard" % what, "%s:%d" % (f.module.relpath, st.lineno),
                     "%s is not guarded by aabb_overlap(node box, query box)" % what)
             okay = False
         return okay
 
+    all_cols = set()
     for st, pushed in pushes:
         cols = set()
         for p in pushed:
@@ -405,11 +441,25 @@ def _r_traverse(idx, rep):
             else:
                 rep.bad(rule, fk + "|push %s" % u(p), "%s:%d" % (f.module.relpath, st.lineno),
                         "pushed value %s is not a child link of the popped node" % u(p))
-        rep.check(cols == {C["LEFT_INDEX"], C["RIGHT_INDEX"]}, rule, fk + "|push-both-children", "%s:%d" % (f.module.relpath, st.lineno),
-                  "a branch pushes columns %s, need both LEFT_INDEX=%d and RIGHT_INDEX=%d" % (sorted(cols), C["LEFT_INDEX"], C["RIGHT_INDEX"]),
-                  "pushes %s" % [u(p) for p in pushed])
-        if check_guards(st, "child push", need_leaf=False):
-            rep.ok(rule, fk + "|push-guards", "%s:%d" % (f.module.relpath, st.lineno), "only overlap test and node type")
+        all_cols |= cols
+        if not push_time:
+            rep.check(cols == {C["LEFT_INDEX"], C["RIGHT_INDEX"]}, rule, fk + "|push-both-children", "%s:%d" % (f.module.relpath, st.lineno),
+                      "a branch pushes columns %s, need both LEFT_INDEX=%d and RIGHT_INDEX=%d" % (sorted(cols), C["LEFT_INDEX"], C["RIGHT_INDEX"]),
+                      "pushes %s" % [u(p) for p in pushed])
+            if check_guards(st, "child push", need_leaf=False):
+                rep.ok(rule, fk + "|push-guards", "%s:%d" % (f.module.relpath, st.lineno), "only overlap test and node type")
+        else:
+            # each child is pushed iff it exists and ITS box overlaps the query
+            okp = len(pushed) == 1
+            if okp:
+                okp = check_guards(st, "child push", need_leaf=False, box="%s[%s]" % (p_aabbs, u(pushed[0])), extra_sentinels=[u(pushed[0])])
+            else:
+                rep.bad(rule, fk + "|push %s" % u(st)[:40], "%s:%d" % (f.module.relpath, st.lineno), "several children pushed under one test: each child needs the overlap test of its own box")
+            if okp:
+                rep.ok(rule, fk + "|push-guards", "%s:%d" % (f.module.relpath, st.lineno), "child pushed iff it exists and its box overlaps")
+    if push_time:
+        rep.check(all_cols == {C["LEFT_INDEX"], C["RIGHT_INDEX"]}, rule, fk + "|push-both-children", f.where,
+                  "the branch case examines the child columns %s, need both LEFT_INDEX=%d and RIGHT_INDEX=%d" % (sorted(all_cols), C["LEFT_INDEX"], C["RIGHT_INDEX"]), "both children examined")
     # leaf append
     appends = []
     for st in iter_stmts(loop.body):
@@ -424,7 +474,7 @@ def _r_traverse(idx, rep):
         vals = [u(e) for e in arg.elts] if isinstance(arg, (ast.List, ast.Tuple)) else [u(arg)]
         rep.check(vals == [nodevar], rule, fk + "|leaf-append-value", "%s:%d" % (f.module.relpath, st.lineno),
                   "appended %s instead of the popped node index %s" % (vals, nodevar))
-        if check_guards(st, "leaf append", need_leaf=True):
+        if check_guards(st, "leaf append", need_leaf=True, need_overlap=not push_time):
             rep.ok(rule, fk + "|leaf-append-guards", "%s:%d" % (f.module.relpath, st.lineno), "only overlap test and node type")
     # early exits in the loop
     for st in iter_stmts(loop.body):
@@ -895,7 +945,7 @@ def r_sentinel(idx, rep, rule="R-SENTINEL"):
     if not seeded:
         rep.note("AabbTree.__init__ no longer seeds root with INDEX_NONE; R-SENTINEL obligations are trivially met")
     for fname in ("query_overlap", "query_overlap_of_other_tree"):
-        f = idx.func(MOD + "::" + fname)
+        f = _nf_expr(idx, idx.func(MOD + "::" + fname))
         fk = MOD + "::" + fname
         # root parameters: those that receive `<x>.root` at a call site in the class, or are forwarded as such
         roots = [p for p in f.params() if p.startswith("root")]
@@ -909,6 +959,15 @@ def r_sentinel(idx, rep, rule="R-SENTINEL"):
         seeds = [st for st in iter_stmts(f.node.body) if isinstance(st, ast.Assign) and u(st.targets[0]) == stackname
                  and st.lineno < loop.lineno]
         seeded_roots = [r for r in roots if any(r in {n.id for n in ast.walk(st.value) if isinstance(n, ast.Name)} for st in seeds)]
+        # the root may also enter the stack by an append in front of the loop (`if root != INDEX_NONE and ...: stack.append(root)`)
+        for top_ in f.node.body:
+            if top_ is loop:
+                break
+            for st_ in ast.walk(top_):
+                if isinstance(st_, ast.Expr) and isinstance(st_.value, ast.Call) and call_name(st_.value) in (stackname + ".append", stackname + ".extend"):
+                    for r in roots:
+                        if r in {n.id for n in ast.walk(st_.value) if isinstance(n, ast.Name)} and r not in seeded_roots:
+                            seeded_roots.append(r)
         nodevar, _ = _pop_var(loop, stackname)
         for r in roots:
             if r in seeded_roots:
@@ -944,11 +1003,28 @@ def _guarded_in_function(f, loop, root, nodevar, C):
         if isinstance(st, ast.If) and _is_sentinel_test(st.test, C, [root]) and not _sentinel_polarity(st.test, C):
             if any(root in u(s) for s in st.body):
                 return True
+    pm = parent_map(f.node)
+    # 2b. invariant "the stack never holds the sentinel": EVERY push — the root in front of the loop and every child inside it — is dominated by a test that
+    #     excludes the sentinel for the very value that is pushed (`x != INDEX_NONE and ...` evaluated left to right)
+    stackname_ = [n.id for n in ast.walk(loop.test) if isinstance(n, ast.Name)][-1]
+    all_pushes = [st_ for st_ in ast.walk(f.node) if isinstance(st_, ast.Expr) and isinstance(st_.value, ast.Call)
+                  and call_name(st_.value) in (stackname_ + ".append", stackname_ + ".extend")]
+    literal_seed = [st_ for st_ in iter_stmts(f.node.body) if isinstance(st_, ast.Assign) and u(st_.targets[0]) == stackname_ and isinstance(st_.value, ast.List) and st_.value.elts]
+    if all_pushes and not literal_seed:
+        good = True
+        for st_ in all_pushes:
+            arg_ = st_.value.args[0] if st_.value.args else None
+            vals_ = list(arg_.elts) if isinstance(arg_, (ast.List, ast.Tuple)) else [arg_]
+            chain_ = _guard_chain(pm, st_, f.node)
+            for v_ in vals_:
+                ok_ = any(_is_sentinel_test(c_, C, [u(v_)]) and _sentinel_polarity(c_, C) != pol_ for t_, pol_ in chain_ for c_ in (conjuncts(t_) if pol_ else [t_]))
+                good = good and ok_
+        if good:
+            return True
     # 3. every use of the popped variable as an index is dominated by a test that excludes the sentinel (enclosing if, or a guard clause
     #    in front of it — both are part of the guard chain)
     if not nodevar:
         return False
-    pm = parent_map(f.node)
     uses = []
     for st in iter_stmts(loop.body):
         if isinstance(st, (ast.If, ast.For, ast.While)):
